@@ -170,6 +170,35 @@ PROPS = {
             'finite f outside the i128 coefficient range is read literally: -2^127 (coefficient i128::MIN) is converted, see DESIGN.md findings F1',
         ],
     },
+    'C17': {
+        'units': ['core_kernel', 'add_sub', 'checked_add_sub', 'mul', 'checked_mul', 'div_kernel', 'div_rounded', 'div',
+                  'checked_div', 'rem', 'checked_rem', 'cmp'],
+        'title': 'All operand forms of an operator compute the same function',
+        'design_ref': 'DESIGN.md section 7 (C17)',
+        'level': 'other',
+        'level_text': 'Every one of the macro-generated impls (by-value, by-reference, integer operand on either side, compound assignment) gets its contract GENERATED FROM ITS IMPL HEADER: the ok/value specification of the Decimal/Decimal form applied to the lifted operands (dec_of(i) for an integer i), and Verus proves each impl body against it (the impl count per family is checked, a changed count is exit 2). Not level proof because the property fails for one family on this tree: int.div_rounded(int, n) with n > 18 (known finding D4b); quantize is not under contract.',
+        'assumptions': [
+            'compound assignment: impl<T> OpAssign<T> for Decimal is verified generically: same precondition and value as the operator for every T',
+            'multiplication: the integer forms are judged against the exact product at the Decimal scale (no one/zero short-cut), as the property allows',
+            'quantize (generic blanket impl) is NOT under contract',
+        ],
+    },
+    'C20': {
+        'units': ['core_kernel', 'round', 'add_sub', 'checked_add_sub', 'mul', 'checked_mul', 'div_kernel', 'div_rounded',
+                  'div', 'checked_div', 'rem', 'checked_rem', 'cmp', 'unops', 'magnitude', 'conv_int_total', 'from_float',
+                  'into_float', 'format', 'parser', 'ratio'],
+        'unit_modes': {'*': ('D',), 'unops': ('F', 'D'), 'core_kernel': ('F', 'D')},
+        'title': 'Results do not depend on the build profile; overflow is never silent',
+        'design_ref': 'DESIGN.md section 7 (C20)',
+        'level': 'other',
+        'level_text': 'Decides the overflow-check and debug-assertion dimensions deductively: in the D-run of every unit (explicit_panic diverges, inputs in the property domain) Verus must report NO possible-overflow / division-by-zero / shift obligation - i.e. every panic on an unrepresentable result is an explicit panic that is compiled identically with and without overflow-checks - and every debug_assert! condition is proved in the F-run. opt-level and the packed layout are not decided by any contract (compiler correctness / layout only), hence level other.',
+        'assumptions': [
+            'opt-level 0 vs 3: rustc/LLVM preserve the semantics of safe code without UB (trusted)',
+            'feature packed: repr(packed) only changes field layout; the crate takes no references to fields (the compiler would reject that); trusted',
+            'inputs in the domain of C01-C15 (valid Decimals: coeff > i128::MIN, n_frac_digits <= 18)',
+            'array index panics (ten_pow) are present in every build profile (language guarantee)',
+        ],
+    },
     'C05': {
         'units': ['core_kernel', 'round'],
         'title': 'round / checked_round implement all eight rounding modes exactly',
